@@ -456,14 +456,17 @@ Fixpoint set_positional (st : state) (id : positive) (i : N) (vs : list value) :
 (* ------------------------------------------------------------------------------------------ *)
 (* builtins that do not call back into the interpreter *)
 
-Definition bad_arg {A : Type} (i : N) (fname : string) (expected : string) (v : value) (st : state) : res A :=
-  err ("bad argument #" ++ n_to_dec i ++ " to '" ++ fname ++ "' (" ++ expected ++ " expected, got "
-       ++ (match v with VNil => "no value" | _ => type_name v end) ++ ")") st.
+Definition bad_arg {A : Type} (i : N) (fname : string) (expected : string) (got : string) (st : state) : res A :=
+  err ("bad argument #" ++ n_to_dec i ++ " to '" ++ fname ++ "' (" ++ expected ++ " expected, got " ++ got ++ ")") st.
+
+(* how luaL_typerror names the i-th argument (0-based): its type, or "no value" when absent *)
+Definition arg_type_name (i : nat) (args : list value) : string :=
+  match nth_error args i with Some v => type_name v | None => "no value" end.
 
 Definition num_arg (i : nat) (fname : string) (args : list value) (st : state) : res Q :=
   match to_num (arg i args) with
   | Some q => ROk q st
-  | None => bad_arg (N.of_nat (S i)) fname "number" (arg i args) st
+  | None => bad_arg (N.of_nat (S i)) fname "number" (arg_type_name i args) st
   end.
 
 (* optional numeric argument with a default *)
@@ -477,13 +480,13 @@ Definition str_arg (i : nat) (fname : string) (args : list value) (st : state) :
   match arg i args with
   | VStr s => ROk s st
   | VNum q => ROk (fmt_g14 q) st
-  | v => bad_arg (N.of_nat (S i)) fname "string" v st
+  | _ => bad_arg (N.of_nat (S i)) fname "string" (arg_type_name i args) st
   end.
 
 Definition tab_arg (i : nat) (fname : string) (args : list value) (st : state) : res positive :=
   match arg i args with
   | VTable id => ROk id st
-  | v => bad_arg (N.of_nat (S i)) fname "table" v st
+  | _ => bad_arg (N.of_nat (S i)) fname "table" (arg_type_name i args) st
   end.
 
 (* string positions as in str_find_aux/posrelat: negative counts from the end *)
@@ -573,7 +576,7 @@ Fixpoint fold_num (f : Q -> Q -> Q) (fname : string) (i : nat) (acc : Q) (rest :
   | v :: rest' =>
       match to_num v with
       | Some q => fold_num f fname (S i) (f acc q) rest' st
-      | None => bad_arg (N.of_nat (S i)) fname "number" v st
+      | None => bad_arg (N.of_nat (S i)) fname "number" (type_name v) st
       end
   end.
 
@@ -587,7 +590,7 @@ Fixpoint chars_of (i : nat) (vs : list value) (st : state) : res string :=
             do* rest, st1 <- chars_of (S i) vs' st;
             ROk (String (ascii_of_N (Z.to_N (Qnum q))) rest) st1
           else err ("bad argument #" ++ n_to_dec (N.of_nat (S i)) ++ " to 'char' (invalid value)") st
-      | None => bad_arg (N.of_nat (S i)) "char" "number" v st
+      | None => bad_arg (N.of_nat (S i)) "char" "number" (type_name v) st
       end
   end.
 
@@ -595,7 +598,7 @@ Definition pure_builtin (b : builtin) (args : list value) (st : state) : res (li
   match b with
   | BAssert =>
       match args with
-      | [] => bad_arg 1 "assert" "value" VNil st
+      | [] => bad_arg 1 "assert" "value" "no value" st
       | v :: rest =>
           if truthy v then ROk args st
           else match rest with
@@ -606,14 +609,14 @@ Definition pure_builtin (b : builtin) (args : list value) (st : state) : res (li
   | BError => RErr (arg 0 args) st
   | BType =>
       match args with
-      | [] => bad_arg 1 "type" "value" VNil st
+      | [] => bad_arg 1 "type" "value" "no value" st
       | v :: _ => ROk [VStr (type_name v)] st
       end
   | BTonumber =>
       match arg 1 args with
       | VNil =>
           match args with
-          | [] => bad_arg 1 "tonumber" "value" VNil st
+          | [] => bad_arg 1 "tonumber" "value" "no value" st
           | v :: _ => ROk [match to_num v with Some q => VNum q | None => VNil end] st
           end
       | _ => RUnsup "tonumber with a base" st
@@ -1035,7 +1038,7 @@ with call_builtin (n : nat) (b : builtin) (args : list value) (st : state) {stru
       match b with
       | BTostring =>
           match args with
-          | [] => bad_arg 1 "tostring" "value" VNil st
+          | [] => bad_arg 1 "tostring" "value" "no value" st
           | v :: _ => do* s, st1 <- tostr n v st; ROk [VStr s] st1
           end
       | BPrint =>
@@ -1043,7 +1046,7 @@ with call_builtin (n : nat) (b : builtin) (args : list value) (st : state) {stru
           ROk [] (emit_line st1 line)
       | BPcall =>
           match args with
-          | [] => bad_arg 1 "pcall" "value" VNil st
+          | [] => bad_arg 1 "pcall" "value" "no value" st
           | f :: rest =>
               match call n f rest st with
               | ROk vs st1 => ROk (VBool true :: vs) st1
